@@ -123,6 +123,13 @@ def step (st : St) (line : String) : St × String :=
     match n.toNat?, w.toInt? with
     | some n, some w => trackerCase st (advance st.tr n w) impl none (find st.tr.sources n).isSome
     | _, _ => (st, "BADLINE")
+  | ["rel"] =>
+    -- `Engine::reload` with the same program: no stream changes, tracker and configs untouched
+    match st.eng with
+    | some e =>
+      let model := s!"+0 -0 ~0 | {fmtState e.tracker}"
+      (st, verdict model impl)
+    | none => (st, "BADLINE")
   | ["ev", et, ts] =>
     match st.eng, et.toNat?, ts.toInt? with
     | some e, some et, some ts =>
